@@ -892,6 +892,81 @@ def c08(res, wd):
                 "non-trivial = >=5 forged packets consumed")
 
 
+# ---------------------------------------------------------------------------------------------
+# C13: SyncTestSession
+# ---------------------------------------------------------------------------------------------
+
+def _st_plan(rng, frames, glitch):
+    players = rng.choice([1, 2, 2, 3, 4])
+    window = rng.choice([2, 3, 4, 8, 8, 12])
+    cd = rng.randrange(0, window)            # check_distance < max_prediction
+    cfg = {"players": players, "window": window, "check_distance": cd, "sparse": False,
+           "peers": [{"kind": "synctest", "locals": list(range(players)), "delay": rng.choice([0, 0, 1, 2, 5]), "host": 0}]}
+    if glitch:
+        cd = max(cd, 2) if window > 2 else cd
+        cfg["check_distance"] = cd
+        cfg["glitch_frame"] = rng.randrange(cd + 1, frames - cd - 6)
+        cfg["glitch_k"] = rng.randrange(1, cd + 2)
+    return {"seed": rng.randrange(1 << 30), "frames": frames, "cfg": cfg, "tick_ms": [16],
+            "alphabet": rng.choice([2, 4, 16]), "change": rng.choice([0.3, 1.0]), "max_ms": frames * 40 + 2000}
+
+
+def c13(res, wd):
+    base = {"QL": 128, "NP": 2, "W": 4, "CD": 2, "Delay": 1, "Values": "{0, 1}", "MaxFrame": 6,
+            "GlitchFrame": 999, "GlitchK": 0}
+    # horizon: the glitch at frame 3 fires in call 4 (+k-1); it must be reported by call 4+k-1+CD+2
+    runs = [("det_cd2", dict(base)), ("det_cd0", dict(base, CD=0)), ("det_cd3_d0", dict(base, CD=3, Delay=0)),
+            ("glitch_f3_k2", dict(base, NP=1, GlitchFrame=3, GlitchK=2, MaxFrame=10)),
+            ("glitch_f3_k3", dict(base, NP=1, GlitchFrame=3, GlitchK=3, MaxFrame=11)),
+            # known finding (regression): a deviation on the first simulation only is never reported
+            ("KF_glitch_f3_k1", dict(base, NP=1, GlitchFrame=3, GlitchK=1, MaxFrame=9))]
+    if res.tier == "thorough":
+        runs += [("det_np3", dict(base, NP=3, MaxFrame=5)), ("det_cd1", dict(base, CD=1)),
+                 ("glitch_np2_k2", dict(base, GlitchFrame=3, GlitchK=2, MaxFrame=10))]
+        runs += [("glitch_cd3_k%d" % k, dict(base, CD=3, GlitchFrame=4, GlitchK=k, MaxFrame=12, NP=1)) for k in (2, 3, 4)]
+    for name, c in runs:
+        cfgp = os.path.join(wd, "mc_st_%s.cfg" % name)
+        engines.write_cfg(cfgp, "Spec", {k: str(v) for k, v in c.items()}, invariants=["NoViolation", "NoPanic"],
+                          view="View")
+        rc, out = core.tlc(os.path.join(core.SPEC, "MC_SyncTest.tla"), cfgp, os.path.join(wd, "md_st_" + name),
+                           workers=8, timeout=900, xmx="8g")
+        gen, dist = core.parse_tlc_stats(out)
+        if name.startswith("KF_"):
+            if "is violated" not in out or "first-simulation-only" not in out:
+                raise core.ToolError("MC_SyncTest/%s: the model no longer exhibits the known finding" % name)
+            res.add_model("MC_SyncTest/" + name, gen, dist, {"constants": c, "expected_violation": True,
+                                                             "known_finding": "KF-C13-first-simulation"})
+            continue
+        if "is violated" in out:
+            raise core.ToolError("MC_SyncTest/%s violates the monitor: the SyncTest model deviates from the "
+                                 "specification of C13 or the design is defective:\n%s" % (name, out[-1500:]))
+        if "Model checking completed" not in out:
+            raise core.ToolError("MC_SyncTest/%s did not complete: %s" % (name, out[-1500:]))
+        res.add_model("MC_SyncTest/" + name, gen, dist, {"constants": c, "exhaustive": True})
+    rng = random.Random(res.seed * 1000 + 130)
+    n, frames = sizes(res.tier, (24, 120), (160, 500))
+    ps = [_st_plan(rng, frames, glitch=(i % 2 == 1)) for i in range(n)]
+    # every (check distance, k-th simulation) pair: the deviation on each possible re-simulation
+    for cd in range(2, sizes(res.tier, 5, 8)):
+        for k in range(1, cd + 2):
+            p = _st_plan(rng, frames, glitch=True)
+            p["cfg"]["window"] = max(p["cfg"]["window"], cd + 1)
+            p["cfg"]["check_distance"] = cd
+            p["cfg"]["glitch_k"] = k
+            p["cfg"]["glitch_frame"] = rng.randrange(cd + 1, frames - cd - 8)
+            ps.append(p)
+    engines.obs_runs(res, "C13", ps, {"C13", "C02", "C03", "C01"}, wd, "c13", batch=4,
+                     nontrivial=lambda st, pl: st["loads"] >= 10)
+    res.rule = ("MC_SyncTest.tla (SyncTest.tla = sync layer + checksum history + compare-then-roll-back) explored "
+                "exhaustively for 1-3 players, check distance 0..3, delay 0..1, all input sequences over {0,1} and the "
+                "glitch on the k-th simulation of a frame, with the monitor as invariant; real SyncTestSessions with "
+                "1-4 players, windows 2..12, every check distance below the window, delays 0..5, random inputs, and a "
+                "recording game that deviates on the k-th simulation of a random frame: the monitor demands no "
+                "MismatchedChecksum for the deterministic game, a report within check_distance+2 calls naming the "
+                "first affected frame for the glitching one (check distance >= 2), and P2P's request-list contract "
+                "with all inputs Confirmed and delayed as configured.  non-trivial = >=10 loads")
+
+
 CHECKS = {
     "C01": c01,
     "C02": c02,
@@ -905,6 +980,7 @@ CHECKS = {
     "C10": c10,
     "C11": c11,
     "C12": c12,
+    "C13": c13,
     "C14": c14,
 }
 
